@@ -816,8 +816,8 @@ def property_types(ctx):
 
 
 def run(ctx):
-    from .c05 import normalize as normalize_rules
+    from .c05 import normalize as normalize_rules, normalize_state
     ctx.explanation = ('C04: supersize is evaluated on a model system with symbolic positions and a tagged property (image set, counts, cell); the centering tables are extracted and checked in exact '
                        'rationals (inverse pairs, determinants, lattice points, integrality of the supercell indices); conversion wiring; rotate() guards and bounding multipliers by evaluation on symbolic '
                        'integer indices; anchoring of the cut-out cell; operand preservation; normalize as in C05. Not decided: that the atoms kept are the right ones for a concrete cell.')
-    ctx.run_rules([supersize, property_types, centering, basis_sites, conversion, rotate, origin_anchor, preserve, normalize_rules])
+    ctx.run_rules([supersize, property_types, centering, basis_sites, conversion, rotate, origin_anchor, preserve, normalize_rules, normalize_state])
